@@ -193,7 +193,8 @@ def step (E : Engine) (st : St) (l : List String) : St × String :=
     | none => (st, "err")
     | some r =>
       let methods := Driver.Router.methodsOf ms
-      if methods.any (fun m => !(Gen.httpMethods.contains m)) then (st, "err")
+      -- as in Driver/Router: the methods before an unknown one stay registered
+      if methods.isEmpty then (st, "err")
       else
         let ok := (st.R.addMethods E (natOf hid) r methods []).2
         (st.push E (.add (natOf hid) r methods), if ok then "ok" else "err")
